@@ -7,7 +7,10 @@ PROP = {'rule': 'rapid state machine (-rapid.steps=50) over the real migration R
          'successful Evict fail", "the next Evict is rejected"; failed writes are either not applied or applied with the response lost. '
          '1-2 jobs (user-made, made through CreatePodMigrationJob, or pointing at a pre-existing Reservation), modes ReservationFirst / '
          'EvictionDirectly (explicit or by controller default), 1-2 pods of one workload. Half of the cases use the "colocated" profile: two '
-         'reservation-first jobs whose reservations tend to share a node and an eviction-time failure armed from the start. '
+         'reservation-first jobs whose reservations tend to share a node and an eviction-time failure armed from the start. A dedicated '
+         'action (and a bias in the "next healthy step" action) produces the ordering: scheduler reports the reservation unschedulable -> '
+         'a reconcile records ReservationScheduled=False on the job -> the reservation is later scheduled on the target pod\'s own node -> '
+         'reconcile (class unschedulable-recorded-then-scheduled-on-pod-node-then-reconciled, ~5 % of reservation-first cases). '
          'non-trivial = the job\'s reservation changes state between two reconciles of a Running job, or an API write fails right after a '
          'successful Evict. distinct = FNV-64 fingerprint of the full history.',
  'assumptions': ['API = controller-runtime fake client with status subresources for PodMigrationJob and Reservation, plus server-side UID / '
